@@ -30,4 +30,45 @@
   {'op': 'func', 'file': 'igris/container/pool.h', 'name': 'put', 'in_class': 'pool', 'self': 'igris_pool', 'as': 'igris_pool_put'},
   {'op': 'func', 'file': 'igris/container/pool.h', 'name': 'avail', 'in_class': 'pool', 'self': 'igris_pool', 'as': 'igris_pool_avail'},
  ],
+},
+# cxx2c recipe for igris::static_object_pool<T, Capacity> (igris/container/static_object_pool.h), second entry of this file:
+# generated into cxx/sop_c.c, to be #included after cxx/pool_c.c by the units that need it.
+#   * instantiated at T = C10_T = struct { long payload; ELEM e; } (R4): an element type with a non-trivial lifetime
+#     (spec/elem_lifetime.h) whose ghost lifetime byte lies behind the first word, i.e. is not overwritten by the
+#     free-list link the pool threads through a free cell; Capacity = SOP_CAP (unit parameter);
+#   * GLUE (not extracted: constexpr static member functions, std::array, alignas are outside the rule set): the data
+#     layout  struct storage_type { alignas(max(alignof(T), alignof(slist_head))) char data[max(sizeof(T), sizeof(slist_head))]; }
+#     and  struct static_object_pool { pool_head head; storage_type storage[Capacity]; }  are written out in C, together with
+#     the two static_asserts of the class;
+#   * R5: `new (ptr) T(std::forward<Args>(args)...)` -> C10_T_construct((C10_T *)ptr, args) (one-element pack), `obj->~T()` ->
+#     C10_T_destroy(obj); R3b: the mem-initialiser `storage()` (value-initialisation) -> memset 0; `storage.data()` -> the array.
+{
+ 'out': 'cxx/sop_c.c',
+ 'pieces': [
+  {'op': 'glue', 'text': '#include <string.h>\n#include "elem_lifetime.h"\n'
+                         'typedef struct C10_T { long payload; ELEM e; } C10_T;\n'
+                         'static inline void C10_T_construct(C10_T *p, int v) { p->payload = v; ELEM_construct_value(&p->e, v); }\n'
+                         'static inline void C10_T_destroy(C10_T *p) { ELEM_destroy(&p->e); }\n'
+                         '#define SOP_MAX(a, b) ((a) > (b) ? (a) : (b))\n'
+                         'struct sop_storage_type { _Alignas(SOP_MAX(_Alignof(C10_T), _Alignof(struct slist_head))) char data[SOP_MAX(sizeof(C10_T), sizeof(struct slist_head))]; };\n'
+                         '_Static_assert(sizeof(struct sop_storage_type) >= sizeof(C10_T), "Invalid storage_type size");\n'
+                         '_Static_assert(sizeof(struct sop_storage_type) >= sizeof(struct slist_head), "Invalid storage_type size");\n'
+                         'struct static_object_pool { struct pool_head head; struct sop_storage_type storage[SOP_CAP]; };\n'},
+  {'op': 'func', 'file': 'igris/container/static_object_pool.h', 'name': 'static_object_pool', 'in_class': 'static_object_pool', 'self': 'static_object_pool',
+   'members': ['head', 'storage'], 'as': 'static_object_pool_ctor',
+   'tparams': {'Capacity': 'SOP_CAP', 'storage_type': 'struct sop_storage_type', 'T': 'C10_T'},
+   'rewrite': [[r'memset\(&self->storage, 0, sizeof\(self->storage\)\);', 'memset(&self->storage, 0, sizeof(self->storage));', 1],
+               [r'self->storage\.data\(\)', '(void *)self->storage', 1]]},
+  {'op': 'func', 'file': 'igris/container/static_object_pool.h', 'name': 'create', 'in_class': 'static_object_pool', 'self': 'static_object_pool',
+   'members': ['head', 'storage'], 'as': 'static_object_pool_create',
+   'tparams': {'Capacity': 'SOP_CAP', 'storage_type': 'struct sop_storage_type', 'T': 'C10_T'},
+   'sig_rewrite': [[r'Args\s*&&\s*\.\.\.\s*args', 'int args', 1]],
+   'rewrite': [[r'new \(ptr\) C10_T\(std::forward<Args>\(args\)\.\.\.\)', '(C10_T_construct((C10_T *)ptr, args), (C10_T *)ptr)', 1]]},
+  {'op': 'func', 'file': 'igris/container/static_object_pool.h', 'name': 'destroy', 'in_class': 'static_object_pool', 'self': 'static_object_pool',
+   'members': ['head', 'storage'], 'as': 'static_object_pool_destroy',
+   'tparams': {'Capacity': 'SOP_CAP', 'storage_type': 'struct sop_storage_type', 'T': 'C10_T'},
+   'rewrite': [[r'obj->~C10_T\(\);', 'C10_T_destroy(obj);', 1]]},
+  {'op': 'func', 'file': 'igris/container/static_object_pool.h', 'name': 'avail', 'in_class': 'static_object_pool', 'self': 'static_object_pool',
+   'members': ['head', 'storage'], 'as': 'static_object_pool_avail'},
+ ],
 }]
